@@ -119,6 +119,10 @@ def judge(prop, f, impl, model, spec):
             j.mismatch = "built query plan differs: impl=%s model=%s" % (impl[:300], model[:300])
         j.nontrivial = impl.startswith("plan:")
         return j
+    if kind == "meta" and prop not in ("C10", "C12", "C13"):
+        # a metamorphic pair inside another property's check (the two sides must agree on the package itself)
+        judge_meta(j, f, impl, model, spec)
+        return j
     if kind == "hist" and prop != "C04":
         # a history run inside another property's check: the result of every evaluation of the shared
         # expression must be the fresh result (and the model's)
